@@ -1,10 +1,11 @@
 #!/usr/bin/env python3
-"""tools/keepseed.py <prop> <n> <caught-by|MISSED> <needs...>  -- files a confirmed seeded change under /verif/seeded/"""
+"""tools/keepseed.py <prop> <n>[:<dst-n>] <caught-by|MISSED> <needs...>  -- files a confirmed seeded change under /verif/seeded/"""
 import json, os, shutil, sys
 pid, n, caught = sys.argv[1], sys.argv[2], sys.argv[3]
+n, _, dn = n.partition(':')
 needs = ' '.join(sys.argv[4:])
 src = '/tmp/seed_%s_out' % pid
-dst = '/verif/seeded/%s-%s' % (pid, n)
+dst = '/verif/seeded/%s-%s' % (pid, dn or n)
 os.makedirs(dst, exist_ok=True)
 shutil.copy(os.path.join(src, 'patch%s.diff' % n), os.path.join(dst, 'patch.diff'))
 shutil.copy(os.path.join(src, 'demo%s.py' % n), os.path.join(dst, 'demo.py'))
